@@ -133,6 +133,16 @@ def _tls_connector_shape(lean_name):
             ("new_service_passes_config", _has(newsvc, "ok ( TlsConnectorService { connector : self . connector . clone ( ) , } )")
                 or _has(newsvc, "ok ( self . clone ( ) )")),
         ]
+        # the service is state-free: nothing but the TLS configuration in it, and every call takes the name it
+        # hands to the TLS library from ITS OWN request
+        st = re.search(r"pub struct TlsConnectorService\s*\{(.*?)\}", src, re.S)
+        if st:
+            fields = [f.strip() for f in st.group(1).split(",") if f.strip()]
+            facts.append(("service_holds_only_the_config", len(fields) == 1 and re.match(r"connector\s*:", fields[0]) is not None))
+        facts.append(("call_names_its_own_request",
+                      _has(src, "match ServerName :: try_from ( conn . hostname ( ) ) {") or _has(src, "match ServerName :: try_from ( connection . hostname ( ) ) {")
+                      or (_has(src, "let host = stream . hostname ( ) ;") and _has(src, "config . into_ssl ( host ) . ok ( )"))
+                      or _has(src, ". connect ( stream . hostname ( ) , io )")))
         for head, nm in [(r"impl Clone for TlsConnector\s*\{", "factory_clone_copies_config"), (r"impl Clone for TlsConnectorService\s*\{", "service_clone_copies_config")]:
             if re.search(head, src):
                 facts.append((nm, _has(_block(src, head, nm), "connector : self . connector . clone ( ) ,")))
